@@ -6,7 +6,7 @@ ID = 'C15'
 RULE = ('tmp cases: one lifetime of a sorter in a fresh directory that already holds a file and a sub-directory: chunk '
         'size / threads / compression as in C01, n input items, exit in {returned after k items consumed, panic in the '
         'input iterator at item k, panic in the comparator at call k}, drop order {iterator first, sorter first}, directory '
-        'given explicitly (TMPDIR then points elsewhere and is watched too), through TMPDIR, or naming a directory that does not exist (build must fail and create nothing); the builder calls are issued in a random order; recursive listings are taken before build, after build, inside the input '
+        'given explicitly (TMPDIR then points elsewhere and is watched too), through TMPDIR, naming a directory that does not exist (build must fail and create nothing), a directory whose name is not valid UTF-8, or a RELATIVE path while the process changes its working directory before the drops; the builder calls are issued in a random order; recursive listings are taken before build, after build, inside the input '
         'iterator, after sort_by, after partial consumption, between the two drops and at the end, together with the files the process holds open under the scratch root (/proc/self/fd: unlinked chunk files are invisible to listings); a few lifetimes spill a chunk above 1 MiB; the extracted oracle '
         'tmp_ok / tmp_open_ok judge them (every open file lives under the configured directory; everything created lives under one new top-level directory with no visible children; the final '
         'listing equals the initial one); non-trivial = at least 2 chunks were spilled; distinct by case text')
@@ -31,7 +31,7 @@ def gen(rng, tier):
         exit_ = rng.choice(['returned', 'returned', 'returned', 'panic_input', 'panic_cmp'])
         k = rng.randint(0, max(1, min(N, 50)))
         order = rng.choice(['iter_first', 'sorter_first'])
-        where = rng.choice(['dir', 'dir', 'dir', 'dir', 'env', 'missing'])
+        where = rng.choice(['dir', 'dir', 'dir', 'dir', 'env', 'missing', 'nonutf8', 'relchdir'])
         chunks = (1 if N else 0) if cs == 'default' else -(-N // cs)
         yield Case(sx.dump(['tmp', ['steps'] + steps, N, exit_, k, order, where]), chunks >= 2, exit_ + '-' + where)
 
